@@ -668,6 +668,31 @@ func wireCases(s *cases.Set, r *cq.RNG, i int) {
 	}
 }
 
+// b1Corner: LoRaWAN 1.1 uplinks of a session whose two integrity keys are EQUAL (a device provisioned with one key,
+// also the all-zero key), in the corner where B1 differs from B0 in at most one field: (ConfFCnt, txDR, txCh) all
+// zero, each alone non-zero, ConfFCnt a multiple of 2^16, crossed with ACK on / off. Ordinary cases (Set, Validate,
+// ValidateF compared with model and specification), plus the same with different keys as control.
+func b1Corner(s *cases.Set, r *cq.RNG, i int) {
+	var zero lorawan.AES128Key
+	k := key(r)
+	keysets := [][2]lorawan.AES128Key{{k, k}, {zero, zero}, {k, key(r)}}
+	combos := [][3]uint32{{0, 0, 0}, {1 + uint32(r.Intn(65535)), 0, 0}, {0, 1 + uint32(r.Intn(255)), 0}, {0, 0, 1 + uint32(r.Intn(255))},
+		{0x10000 * (1 + uint32(r.Intn(100))), 0, 0}, {0x10000*uint32(r.Intn(100)) + 1 + uint32(r.Intn(65535)), 0, 0}, {1 + uint32(r.Intn(65535)), 1, 1}}
+	for ki, ks := range keysets {
+		for _, ack := range []bool{true, false} {
+			for ci, c := range combos {
+				if ki == 2 && ci > 1 { // control with different keys: two combinations are enough
+					continue
+				}
+				mt := []lorawan.MType{lorawan.UnconfirmedDataUp, lorawan.ConfirmedDataUp}[(i+ci)%2]
+				p := dataFrame(r, framefmt.Opt{MType: mt, Port: 1 + r.Intn(200), FRMLen: r.Intn(20), FOptsBytes: r.Intn(5), FCntHigh: ci%2 == 0})
+				p.MACPayload.(*lorawan.MACPayload).FHDR.FCtrl.ACK = ack
+				upCase(s, r, p, lorawan.LoRaWAN1_1, c[0], uint8(c[1]), uint8(c[2]), ks[0], ks[1], []int{0, 3, 4}[(i+ci)%3], "b1-corner-equal-keys")
+			}
+		}
+	}
+}
+
 // dataFrame / joinFrame: the framefmt generators with the MHDR Major field drawn from all four values (the library
 // accepts any; the MHDR octet enters every MIC)
 func dataFrame(r *cq.RNG, o framefmt.Opt) lorawan.PHYPayload {
@@ -724,7 +749,7 @@ func main() {
 	r := cq.NewRNG(seed)
 	nr = cq.NewRNG(seed ^ 0x9e3779b97f4a7c15)
 	s := cases.New("C02", dir, "LW.Corr.C02",
-		"RFC 4493 examples 1-4 and FIPS-197 C.1 first; then data frames (framefmt.DataFrame) whose MIC message length is cycled over 1..16 CMAC blocks (FRMPayload length chosen for it), FCnt with high bits in 70%, ConfFCnt with high bits in 70%, ACK alternating, both MAC versions, txDR/txCh cycled over all byte values, random/degenerate keys, carried MIC = valid / random / one bit flipped / first half changed / second half changed; validate also called with the other direction's function; MHDR Major drawn from 0..3; in a quarter of the frames the FRMPayload / FOpts elements are of a foreign Payload type (framefmt.Opaque, mixed [Opaque, DataPayload], a clocksync.Command on port 202); malformed: nil MACPayload, wrong payload type, unencodable frame (16-byte FOpts, MAC command on port > 0). Octets as received (CWire): frames serialised, then changed on the wire and run through UnmarshalBinary + Validate* (optionally after DecodeFOptsToMACCommands for 1.0): as sent, MHDR RFU bits 04/08/10/1c set with the old MIC and with the specification MIC over the received octets (known C02-1), three other single-bit flips, a MAC command's RFU bits set in flight or signed by the sender and validated before / after decoding (known C02-2), MIC bit flips after decoding; the verdict is compared with the specification MIC computed in Coq from the raw octets. FOpts of 256..515 octets (C02-3). Special MIC values: frames CONSTRUCTED (internal/micforge: CMAC inverted in its last block, which lies inside the FRMPayload; 1.1 uplink by a 2^16 search for the second half) so that their correct MIC is 00000000, ffffffff, 00000001, the MIC of the previous case, 0000xxxx, xxxx0000 - for uplink/downlink x 1.0/1.1; Set must give that MIC and Validate of the frame carrying it must be true. History: unrelated library calls (internal/noise) before every compared call; neighbour families run back to back (a base call whose frame carries its valid MIC, then the same call with exactly one input changed - single FCnt bits 16, 31, one more high and one low bit, FCnt + 2^16, ConfFCnt + 1 / + 2^16, txDR, txCh, each key zeroed, keys equal, keys swapped, other version, each key replaced by a DIFFERENT key that agrees with it under CRC-32 x3 / Adler-32 / byte sum / xor-folds / first 15 / first 8 / last 8 bytes (internal/collide) - the frame still carrying the base MIC, then the base call again), and MICs that are correct under a RELATED formula of the library (other version, downlink formula with either key, 1.0 / MICF form, keys swapped, neighbouring ConfFCnt/txDR/txCh, halves swapped, cmacF half twice), and a verdict family on ONE frame object (wrong keys, the same wrong keys again, the right keys; MIC never re-assigned), each an ordinary case compared with model and specification; after every Validate* call the frame must print and marshal as before (validate-changes-frame:); every compared call is repeated from 8 goroutines at once (ReplayConcurrently) and three times later in the process (reverse, same, shuffled order) and must give its first result. Cases are distinct by construction (random keys) except the repeated base calls.")
+		"RFC 4493 examples 1-4 and FIPS-197 C.1 first; then data frames (framefmt.DataFrame) whose MIC message length is cycled over 1..16 CMAC blocks (FRMPayload length chosen for it), FCnt with high bits in 70%, ConfFCnt with high bits in 70%, ACK alternating, both MAC versions, txDR/txCh cycled over all byte values, random/degenerate keys, carried MIC = valid / random / one bit flipped / first half changed / second half changed; validate also called with the other direction's function; MHDR Major drawn from 0..3; in a quarter of the frames the FRMPayload / FOpts elements are of a foreign Payload type (framefmt.Opaque, mixed [Opaque, DataPayload], a clocksync.Command on port 202); malformed: nil MACPayload, wrong payload type, unencodable frame (16-byte FOpts, MAC command on port > 0). Octets as received (CWire): frames serialised, then changed on the wire and run through UnmarshalBinary + Validate* (optionally after DecodeFOptsToMACCommands for 1.0): as sent, MHDR RFU bits 04/08/10/1c set with the old MIC and with the specification MIC over the received octets (known C02-1), three other single-bit flips, a MAC command's RFU bits set in flight or signed by the sender and validated before / after decoding (known C02-2), MIC bit flips after decoding; the verdict is compared with the specification MIC computed in Coq from the raw octets. FOpts of 256..515 octets (C02-3). B1 corner: 1.1 uplinks with EQUAL integrity keys (random and all-zero) where B1 differs from B0 in at most one field - (ConfFCnt, txDR, txCh) all zero, each alone non-zero, ConfFCnt a multiple of 2^16 - crossed with ACK on/off. Special MIC values: frames CONSTRUCTED (internal/micforge: CMAC inverted in its last block, which lies inside the FRMPayload; 1.1 uplink by a 2^16 search for the second half) so that their correct MIC is 00000000, ffffffff, 00000001, the MIC of the previous case, 0000xxxx, xxxx0000 - for uplink/downlink x 1.0/1.1; Set must give that MIC and Validate of the frame carrying it must be true. History: unrelated library calls (internal/noise) before every compared call; neighbour families run back to back (a base call whose frame carries its valid MIC, then the same call with exactly one input changed - single FCnt bits 16, 31, one more high and one low bit, FCnt + 2^16, ConfFCnt + 1 / + 2^16, txDR, txCh, each key zeroed, keys equal, keys swapped, other version, each key replaced by a DIFFERENT key that agrees with it under CRC-32 x3 / Adler-32 / byte sum / xor-folds / first 15 / first 8 / last 8 bytes (internal/collide) - the frame still carrying the base MIC, then the base call again), and MICs that are correct under a RELATED formula of the library (other version, downlink formula with either key, 1.0 / MICF form, keys swapped, neighbouring ConfFCnt/txDR/txCh, halves swapped, cmacF half twice), and a verdict family on ONE frame object (wrong keys, the same wrong keys again, the right keys; MIC never re-assigned), each an ordinary case compared with model and specification; after every Validate* call the frame must print and marshal as before (validate-changes-frame:); every compared call is repeated from 8 goroutines at once (ReplayConcurrently) and three times later in the process (reverse, same, shuffled order) and must give its first result. Cases are distinct by construction (random keys) except the repeated base calls.")
 	s.ShardSize = 60
 	n := 600
 	if thorough {
@@ -778,6 +803,15 @@ func main() {
 		} else {
 			q.MHDR.MType = lorawan.UnconfirmedDataUp
 			upCase(s, r, q, lorawan.LoRaWAN1_1, counter(r), r.Byte(), r.Byte(), key(r), key(r), 0, "fopts-too-long")
+		}
+	}
+	{
+		nb := 3
+		if thorough {
+			nb = 60
+		}
+		for i := 0; i < nb; i++ {
+			b1Corner(s, r, i)
 		}
 	}
 	vers := []lorawan.MACVersion{lorawan.LoRaWAN1_0, lorawan.LoRaWAN1_1}
